@@ -322,6 +322,7 @@ def consteval_arm(prop, tier, seed, cov, violations, inconcl, notes, arms_used, 
 def setup():
     for sb in san_builds('quick'):
         build_san(sb)
+    build_fuzz()
 
 
 def pre_monitor_env(prop, tier):
@@ -343,6 +344,8 @@ def extra_arms(prop, tier, seed, cov, violations, inconcl, notes, arms_used, env
             os.unlink(pp)
         else:
             inconcl.append('constant-evaluator arm: no points file')
+    if prop not in ('C07', 'C08') and os.environ.get('VERIF_FUZZ', '1') != '0':
+        fuzz_arm(prop, tier, seed, cov, violations, inconcl, notes, arms_used)
     if tier == 'thorough' or os.environ.get('VERIF_REACH') == '1':
         reach_arm(prop, tier, seed, cov, inconcl, notes, arms_used)
 
@@ -480,3 +483,122 @@ def reach_arm(prop, tier, seed, cov, inconcl, notes, arms_used):
                         'files_measured': sorted(os.path.relpath(p, V.REPO) for p in per_file), 'anchored_functions': reach}
     finally:
         shutil.rmtree(d, ignore_errors=True)
+
+
+# ------------------------------------------------------------------------------------------------ fuzz arm (libFuzzer)
+def build_fuzz():
+    """clang++ -fsanitize=fuzzer,address,undefined build of wrappers + library, linked with the monitor judges (g++ objects)"""
+    d = os.path.join(V.CACHE, 'obj', V.tree_hash())
+    os.makedirs(d, exist_ok=True)
+    msrcs = sorted(glob.glob(os.path.join(V.HARNESS, 'monitor', '*.cc')))
+    hk = V.file_hash(msrcs + sorted(glob.glob(os.path.join(V.HARNESS, 'monitor', '*.h'))) + [os.path.join(V.HARNESS, 'wrappers.cc')])
+    exe = os.path.join(d, f'fuzz-{hk[:16]}')
+    if os.path.exists(exe):
+        return exe
+    libflags = ['-std=c++17', '-O1', '-g', '-w', f'-D{V.HOOK_DEFINE}=1', f'-I{V.LIB_INC}', '-DVERIF_CFG="clang-fuzz-asan-ubsan"',
+                '-fsanitize=fuzzer-no-link,address,undefined,float-cast-overflow', '-fno-sanitize=object-size', '-fno-sanitize-recover=undefined,float-cast-overflow']
+
+    def comp(job):
+        cc, flags, src, o = job
+        r = V.run([cc] + flags + ['-c', src, '-o', o])
+        if r.returncode != 0:
+            raise V.Inconclusive('fuzz build failed: ' + src + '\n' + r.stderr[-2000:])
+        return o
+    jobs = [('clang++', libflags, os.path.join(V.HARNESS, 'wrappers.cc'), exe + '.w.o'), ('clang++', libflags, V.LIB_SRC, exe + '.l.o')]
+    for s in msrcs:
+        jobs.append(('g++', ['-std=c++17', '-O2', '-g', '-w', '-DVERIF_FUZZ=1'], s, exe + '.' + os.path.basename(s) + '.o'))
+    with ThreadPoolExecutor(V.NCPU) as ex:
+        objs = list(ex.map(comp, jobs))
+    r = V.run(['clang++', '-fsanitize=fuzzer,address,undefined'] + objs + ['-o', exe + '.tmp', '-ldl', '-lpthread', '-lquadmath'])
+    if r.returncode != 0:
+        raise V.Inconclusive('fuzz link failed\n' + r.stderr[-2000:])
+    os.replace(exe + '.tmp', exe)
+    for o in objs:
+        os.unlink(o)
+    return exe
+
+
+def fuzz_arm(prop, tier, seed, cov, violations, inconcl, notes, arms_used):
+    arms_used.append('coverage-guided-fuzz')
+    exe = build_fuzz()
+    wd = os.path.join(V.CACHE, 'run', f'fuzz-{prop}-{os.getpid()}')
+    shutil.rmtree(wd, ignore_errors=True)
+    os.makedirs(os.path.join(wd, 'seeds'))
+    known = os.path.join(wd, 'known.txt')
+    with open(known, 'w') as f:
+        for k in V.load_known():
+            if k.get('property') == prop and k.get('status') == 'open':
+                f.write(k['key'] + '\n')
+    # inputs per process; the judges of C01/C16/C17 make 50-100 library calls per input
+    base = {'C01': 200000, 'C16': 120000, 'C17': 400000, 'C02': 500000, 'C04': 500000}.get(prop, 1500000)
+    runs = int(float(os.environ.get('VERIF_FUZZ_RUNS', str(base if tier == 'thorough' else base // 6))) * float(os.environ.get('VERIF_SCALE', '1')))
+    nproc = V.NCPU
+    env = dict(os.environ, VERIF_FUZZ_PROP=prop, VERIF_FUZZ_KNOWN=known, ASAN_OPTIONS=ASAN_OPTS + ':abort_on_error=1', UBSAN_OPTIONS='print_stacktrace=0')
+    # seed corpus is written by the first process start
+    os.makedirs(os.path.join(wd, 'empty'))
+    r0 = subprocess.run([exe, '-runs=0', os.path.join(wd, 'empty')], capture_output=True, text=True, env=dict(env, VERIF_FUZZ_SEEDDIR=os.path.join(wd, 'seeds')))
+    if r0.returncode != 0:
+        raise V.Inconclusive('fuzz target failed to start: ' + r0.stderr[-800:])
+
+    def worker(i):
+        corpus = os.path.join(wd, f'corpus{i}')
+        os.makedirs(corpus)
+        cmd = [exe, f'-seed={seed * 1000 + i + 1}', f'-runs={runs}', '-max_len=25', '-len_control=0', '-use_value_profile=1', '-reduce_inputs=0',
+               '-print_final_stats=1', '-handle_segv=0', '-handle_fpe=0', '-handle_ill=0', '-handle_bus=0', '-timeout=60',
+               f'-artifact_prefix={wd}/art{i}-', corpus, os.path.join(wd, 'seeds')]
+        try:
+            r = subprocess.run(cmd, capture_output=True, text=True, env=env, timeout=int(os.environ.get('VERIF_WATCHDOG_S', '3600')))
+        except subprocess.TimeoutExpired:
+            return i, None, ''
+        return i, r.returncode, r.stderr
+    with ThreadPoolExecutor(nproc) as ex:
+        res = list(ex.map(worker, range(nproc)))
+    total_exec = 0
+    best_cov = best_ft = corpus_units = 0
+    found = []
+    for i, rc, err in res:
+        if rc is None:
+            inconcl.append(f'fuzz worker {i} hit the watchdog')
+            continue
+        m = re.search(r'stat::number_of_executed_units:\s*(\d+)', err)
+        if m:
+            total_exec += int(m.group(1))
+        for m in re.finditer(r'cov: (\d+) ft: (\d+) corp: (\d+)', err):
+            best_cov, best_ft, corpus_units = max(best_cov, int(m.group(1))), max(best_ft, int(m.group(2))), max(corpus_units, int(m.group(3)))
+        m = re.search(r'FUZZ-VIOLATION check=(\S+) a=(-?\d+) b=(-?\d+) c=(-?\d+) key=(.*)', err)
+        if m:
+            found.append({'worker': i, 'check': m.group(1), 'a': int(m.group(2)), 'b': int(m.group(3)), 'c': int(m.group(4)), 'key': m.group(5).strip()})
+        elif rc != 0:
+            # sanitizer abort or crash inside the library: decode the artifact
+            arts = glob.glob(f'{wd}/art{i}-*')
+            summ = re.search(r'SUMMARY: (.*)', err)
+            rec = {'worker': i, 'key': None, 'sanitizer': summ.group(1)[:200] if summ else err[-200:]}
+            if arts:
+                data = open(arts[0], 'rb').read()
+                if len(data) >= 25:
+                    a, b, c = struct.unpack('<qqq', data[1:25])
+                    rec.update({'check_index': data[0], 'a': a, 'b': b, 'c': c})
+            found.append(rec)
+    classes = {}
+    for f in found:
+        if f.get('key'):
+            key = f['key']
+        else:
+            site = re.sub(r'0x[0-9a-f]+', '', f.get('sanitizer', ''))
+            site = re.sub(r':\d+:\d+', '', site)
+            key = f'fuzz/{prop}/sanitizer-or-crash/{site.strip()[:120]}'
+        c = classes.setdefault(key, {'key': key, 'count': 0, 'per_cfg': {'clang-fuzz-asan-ubsan': 0}, 'witnesses': [], 'arm': 'fuzz'})
+        c['count'] += 1
+        c['per_cfg']['clang-fuzz-asan-ubsan'] += 1
+        if len(c['witnesses']) < 4:
+            c['witnesses'].append({k: v for k, v in f.items() if k != 'key'})
+    for c in classes.values():
+        violations.append(c)
+    if total_exec == 0:
+        inconcl.append('fuzz arm executed no inputs')
+    cov['fuzz'] = {'target': 'clang++ -O1 -fsanitize=fuzzer,address,undefined (library + wrappers instrumented), judges = the value monitor oracles', 'processes': nproc,
+                   'runs_per_process': runs, 'executed_inputs': total_exec, 'edge_coverage': best_cov, 'features': best_ft, 'corpus_units': corpus_units,
+                   'input_format': '[check index u8][a i64][b i64][c i64]', 'violations_found': len(found)}
+    cov['evaluations'] += total_exec
+    cov['rule'] += ' | fuzz arm: libFuzzer (value profile) mutates the arguments of the named checks under coverage feedback from the instrumented library'
+    shutil.rmtree(wd, ignore_errors=True)
